@@ -307,6 +307,17 @@ func newQueryPlan(ctx context.Context, store storage.Store, stm *semantic.Statem
 	}, nil
 }
 
+// keepsEveryTriple returns true if the clause has the form {?s ?p ?o}, three
+// different bindings and nothing else. Only then every triple fetched for the
+// clause becomes a row, and only then a LIMIT can be pushed down into the driver
+// lookup: any other clause drops some of the fetched triples afterwards.
+func keepsEveryTriple(cls *semantic.GraphClause) bool {
+	plain := semantic.GraphClause{Optional: cls.Optional, SBinding: cls.SBinding, PBinding: cls.PBinding, OBinding: cls.OBinding}
+	return reflect.DeepEqual(*cls, plain) &&
+		cls.SBinding != "" && cls.PBinding != "" && cls.OBinding != "" &&
+		cls.SBinding != cls.PBinding && cls.SBinding != cls.OBinding && cls.PBinding != cls.OBinding
+}
+
 // processClause retrieves the triples for the provided triple given the
 // information available.
 func (p *queryPlan) processClause(ctx context.Context, cls *semantic.GraphClause, lo *storage.LookupOptions) (bool, error) {
@@ -364,7 +375,7 @@ func (p *queryPlan) processClause(ctx context.Context, cls *semantic.GraphClause
 		})
 		// Data is new.
 		stmLimit := int64(0)
-		if len(p.stm.GraphPatternClauses()) == 1 && len(p.stm.GroupBy()) == 0 && len(p.stm.OrderBy()) == 0 && len(p.stm.HavingExpression()) == 0 {
+		if len(p.stm.GraphPatternClauses()) == 1 && len(p.stm.GroupBy()) == 0 && len(p.stm.OrderBy()) == 0 && len(p.stm.HavingExpression()) == 0 && keepsEveryTriple(cls) {
 			stmLimit = p.stm.Limit()
 		}
 		tbl, err := simpleFetch(ctx, p.grfs, cls, lo, stmLimit, p.chanSize, p.tracer)
@@ -475,7 +486,7 @@ func (p *queryPlan) addSpecifiedData(ctx context.Context, r table.Row, cls *sema
 	})
 
 	stmLimit := int64(0)
-	if len(p.stm.GraphPatternClauses()) == 1 && len(p.stm.GroupBy()) == 0 && len(p.stm.OrderBy()) == 0 && len(p.stm.HavingExpression()) == 0 {
+	if len(p.stm.GraphPatternClauses()) == 1 && len(p.stm.GroupBy()) == 0 && len(p.stm.OrderBy()) == 0 && len(p.stm.HavingExpression()) == 0 && keepsEveryTriple(cls) {
 		stmLimit = p.stm.Limit()
 	}
 	tbl, err := simpleFetch(ctx, p.grfs, cls, lo, stmLimit, p.chanSize, p.tracer)
